@@ -387,3 +387,61 @@ def lazy_negative_index(ctx, repo):
     for c in calls:
         ok = any(g.dominates(g.id_of(fx), g.id_of(c)) for fx in fix)
         ctx.ob("LAZY-neg", f.where, f"{norm(c)} is preceded by `if {k} < 0: {k} += len(...)`", ok, "" if ok else "array[-1] on a lazily read array decodes the record located before the array and caches it")
+
+
+def reorder_null_guard(ctx, repo):
+    ctx.rule("REORDER-null", "ReorderCoverage.apply fetches an Offset-typed field, which decodes to None for a NULL offset (optional coverages such as MathVariants.HorizGlyphCoverage): every attribute access on it is dominated by an `is None` early exit", floor=1)
+    m = repo.mod("ttLib/reorderGlyphs.py")
+    f = m.func("ReorderCoverage.apply")
+    g = CFG(f.node)
+    fetch = [n for n in walk_no_nested(f.node) if isinstance(n, ast.Assign) and isinstance(n.value, ast.Call) and norm(n.value.func) == "_get_dotted_attr" and "coverage_attr" in norm(n.value)]
+    if len(fetch) != 1:
+        raise AnalysisError("ReorderCoverage.apply: coverage fetch not found")
+    v = norm(fetch[0].targets[0])
+    guards = [n for n in walk_no_nested(f.node) if isinstance(n, ast.If) and norm(n.test) in (f"{v} is None", f"not {v}") and any(isinstance(s, (ast.Return, ast.Raise)) for s in n.body)]
+    uses = [n for n in ast.walk(f.node) if isinstance(n, ast.Attribute) and norm(n.value) == v]
+    if not uses:
+        raise AnalysisError("ReorderCoverage.apply: no attribute access on the coverage")
+    ok = all(any(g.dominates(g.id_of(gd), g.id_of(u)) for gd in guards) or any(norm(t) in (f"{v} is not None", v) and pol for t, pol in guard_conditions(u)) for u in uses)
+    ctx.ob("REORDER-null", f.where, f"{len(uses)} attribute accesses on {v} are dominated by `if {v} is None: return`", ok, "" if ok else "a NULL optional coverage raises AttributeError and the font cannot be reordered")
+
+
+# glyph-id-indexed structures outside the otData Coverage machinery (OpenType / AAT spec), and how reorderGlyphs must see them.
+#   kind "name": the table's object model is keyed by glyph NAME (its decompile converts ids with the glyph-order API), so a new
+#                glyph order is picked up on compile -- checked: the table module calls a name-conversion API;
+#   kind "explicit": raw glyph ids / gid-ordered arrays survive decompilation, so reorderGlyphs must handle the structure itself --
+#                checked: every token appears in ttLib/reorderGlyphs.py.
+GID_STRUCTS = [
+    ("hmtx", "name", ()), ("vmtx", "name", ()), ("hdmx", "name", ()), ("LTSH", "name", ()), ("VORG", "name", ()),
+    ("gvar", "name", ()), ("glyf", "name", ()), ("kern", "name", ()), ("post", "name", ()), ("cmap", "name", ()),
+    ("sbix", "name", ()), ("EBLC", "name", ()), ("EBDT", "name", ()), ("COLR", "name", ()), ("VARC", "name", ()),
+    ("CFF /CFF2 charset and CharStrings order", "explicit", ("charset", "charStrings")),
+    ("CFF /CFF2 FDSelect (font dict per glyph id)", "explicit", ("FDSelect",)),
+    ("HVAR/VVAR without AdvWidthMap/AdvHeightMap (VarStore inner index = glyph id)", "explicit", ("HVAR", "VVAR")),
+    ("SVG docList (startGlyphID, endGlyphID)", "explicit", ("SVG ",)),
+]
+NAME_APIS = {"getGlyphName", "getGlyphNameMany", "getGlyphOrder", "getGlyphNames", "getReverseGlyphMap", "getGlyphID", "getGlyphIDMany"}
+
+
+def reorder_gid_structs(ctx, repo):
+    ctx.rule("REORDER-gid", "every structure the OpenType spec indexes by glyph id is either stored by glyph name in fontTools' object model (the table module converts with the glyph-order API) or handled explicitly by reorderGlyphs; otherwise a new glyph order re-associates its entries with other glyphs", floor=15)
+    rg = repo.mod("ttLib/reorderGlyphs.py")
+    src_consts = {n.value for n in ast.walk(rg.tree) if isinstance(n, ast.Constant) and isinstance(n.value, str)}
+    src_names = {n.attr for n in ast.walk(rg.tree) if isinstance(n, ast.Attribute)} | {n.id for n in ast.walk(rg.tree) if isinstance(n, ast.Name)}
+    for what, kind, tokens in GID_STRUCTS:
+        if kind == "name":
+            c = repo.table_class(what)
+            if c is None:
+                raise AnalysisError(f"REORDER-gid: table class for {what!r} not found")
+            mods = {k.mod.rel for k in repo.mro(c) if k.mod.rel.startswith("ttLib/tables/")}
+            # helper modules the table delegates to (sbix strikes, bitmap glyphs, TupleVariation)
+            extra = {"sbix": ("ttLib/tables/sbixStrike.py",), "EBLC": ("ttLib/tables/BitmapGlyphMetrics.py",), "gvar": ("ttLib/tables/TupleVariation.py",), "COLR": ("ttLib/tables/otTables.py",), "VARC": ("ttLib/tables/otConverters.py",)}.get(what, ())
+            found = False
+            for rel in sorted(mods) + [e for e in extra if repo.has(e)]:
+                md = repo.mod(rel)
+                if any(isinstance(n, ast.Attribute) and n.attr in NAME_APIS for n in ast.walk(md.tree)):
+                    found = True
+            ctx.ob("REORDER-gid", "ttLib/reorderGlyphs.py:<module>", f"{what}: object model keyed by glyph name (module converts ids with the glyph-order API)", found, "" if found else f"{what} no longer converts glyph ids to names: its entries keep old ids after a reorder")
+        else:
+            ok = all(t in src_consts or t in src_names for t in tokens)
+            ctx.ob("REORDER-gid", "ttLib/reorderGlyphs.py:reorderGlyphs", f"{what}: handled explicitly (mentions {list(tokens)})", ok, "" if ok else f"reorderGlyphs never touches {what}: after a reorder the entries belong to other glyphs")
